@@ -410,7 +410,53 @@ func visitInstr(fr *frame, instr ssa.Instruction) continuation {
 	return kNext
 }
 
+// symIndex reads cells[idx] for a symbolic idx as an ite chain (no forking
+// except for the bounds check) when all cells are integer scalars.
+func symIndex(i *interpreter, cells func(k int) value, n int, idx sym) (value, bool) {
+	if n == 0 || n > 256 {
+		return nil, false
+	}
+	first := cells(0)
+	_, k0 := i.termOf(first)
+	for k := 0; k < n; k++ {
+		c := cells(k)
+		switch c.(type) {
+		case sym, bool, int, int8, int16, int32, int64, uint, uint8, uint16, uint32, uint64, uintptr:
+		default:
+			return nil, false
+		}
+	}
+	ts := i.ts
+	w := idx.t.sort
+	inb := ts.Cmp("bvult", idx.t, ts.Const(w, uint64(n)))
+	if !i.ps.decide(inb) {
+		i.rtPanic(fmt.Sprintf("index out of range [symbolic] with length %d", n))
+	}
+	r, _ := i.termOf(cells(n - 1))
+	for k := n - 2; k >= 0; k-- {
+		c, _ := i.termOf(cells(k))
+		r = ts.Ite(ts.Cmp("=", idx.t, ts.Const(w, uint64(k))), c, r)
+	}
+	return valOf(r, k0), true
+}
+
 func indexValue(i *interpreter, x value, idxv value) value {
+	if s, ok := idxv.(sym); ok {
+		switch x := x.(type) {
+		case array:
+			if v, ok := symIndex(i, func(k int) value { return x[k] }, len(x), s); ok {
+				return v
+			}
+		case string:
+			if v, ok := symIndex(i, func(k int) value { return x[k] }, len(x), s); ok {
+				return v
+			}
+		case symstr:
+			if v, ok := symIndex(i, func(k int) value { return x.b[k] }, len(x.b), s); ok {
+				return v
+			}
+		}
+	}
 	switch x := x.(type) {
 	case array:
 		idx := i.asIntC(idxv)
